@@ -5,7 +5,7 @@
    deflater produced for m returns m and leaves them in sync.  The negotiated window sizes are parameters of the oracle. *)
 From Coq Require Import List NArith Bool.
 From Coq.Strings Require Import Byte.
-From Model Require Import Bytes Response Conn Compression.
+From Model Require Import Bytes Frame Response Conn Compression.
 From Proofs Require Import CompressionFacts.
 Import ListNotations.
 
@@ -45,3 +45,30 @@ Print Assumptions C06_model_uses_oracle_in_order.
 (* window-size parameters outside 8..15 (or not a number) never yield a configuration *)
 Theorem C06_params_in_range : forall opts k n, get_wbits opts k = Some n -> (8 <= n <= 15)%N.
 Proof. exact wbits_in_range. Qed.
+
+(* the receiving side of the connection model drives the inflate oracle like recv1: for a message whose first frame has
+   RSV1, on a connection that negotiated the extension, Message.build makes exactly one Deflate.decompress call with the
+   payloads of all fragments in arrival order in the current context epoch, consumes exactly one oracle result, moves to
+   a new epoch when the peer ended its DEFLATE stream inside this message (RFC 7692 7.2.3.4, KF-H) and when
+   server_no_context_takeover was negotiated; a zlib error is a critical protocol error; a binary message is delivered
+   as what was inflated, a text message iff what was INFLATED is well-formed UTF-8 *)
+Theorem C06_receive_uses_oracle_in_order : forall c d f0 rest,
+  k_deflate c = Some d -> f_rsv1 f0 = true ->
+  let frames := f0 :: rest in
+  let c' := fst (build_message c frames) in
+  k_tr c' = TInflate (k_zin c) (map f_payload frames) :: k_tr c /\
+  k_ztape c' = tl (k_ztape c) /\
+  match k_ztape c with
+  | Some (out, ended) :: _ =>
+      k_zin c' = bump (d_reset d) (bump ended (k_zin c)) /\
+      (f_op f0 = Frame.OP_BINARY -> snd (build_message c frames) = inl (MBinary out)) /\
+      (f_op f0 = Frame.OP_TEXT -> snd (build_message c frames) = if Utf8.utf8_validb out then inl (MText out) else inr MCritical)
+  | None :: _ | [] => k_zin c' = k_zin c /\ snd (build_message c frames) = inr MCritical
+  end.
+Proof. exact build_message_compressed. Qed.
+Print Assumptions C06_receive_uses_oracle_in_order.
+
+(* a message without RSV1 never reaches the inflater, negotiated or not: state and oracle tape are untouched *)
+Theorem C06_plain_message_bypasses_inflater : forall c f0 rest,
+  f_rsv1 f0 = false -> fst (build_message c (f0 :: rest)) = c.
+Proof. exact build_message_plain_untouched. Qed.
